@@ -74,11 +74,47 @@ def churn_programs():
     return out
 
 
+def weak_chain_programs():
+    """WeakMap / WeakSet entries whose keys the program reaches only THROUGH the values of other entries (ephemeron chains):
+    an entry must survive every collection while the head of its chain is reachable, whatever the order in which the entries
+    were inserted (= allocation order of the ephemerons, which is the order the collector's fix-point visits them in), however
+    many maps the chain runs through, and whether the value is the next key itself or an object / array / closure holding it.
+    The text is outside MiniJS (no WeakMap in JsCore.tla): every collection schedule must print what the collection-free
+    configuration prints, and that must be the closed form stated here (the whole chain, every time)."""
+    import itertools
+    out = []
+    wraps = {"direct": ("%s", "%s"), "object": ("{next: %s}", "%s.next"), "array": ("[0, %s]", "%s[1]"),
+             "closure": ("(function(v){ return function(){ return v } })(%s)", "%s()")}
+    for depth in (2, 3, 4, 5):
+        orders = list(itertools.permutations(range(depth))) if depth <= 4 else \
+            [tuple(range(depth)), tuple(reversed(range(depth))), (4, 2, 0, 3, 1), (1, 3, 0, 2, 4), (2, 3, 4, 0, 1)]
+        for order in orders:
+            for wn, (wrap, unwrap) in wraps.items():
+                if depth == 4 and wn not in ("direct", "object") and order != tuple(reversed(range(depth))):
+                    continue
+                for maps in (1, 2):
+                    if maps == 2 and wn not in ("direct", "object"):
+                        continue
+                    name = "weakchain/d%d/%s/%s/m%d" % (depth, "".join(map(str, order)), wn, maps)
+                    chain = ">".join(["head"] + ["n%d" % i for i in range(1, depth + 1)])
+                    src = """var maps = [%s]; var head = {name: 'head'}; var ws = new WeakSet();
+function churn(n){ var junk = []; for (var i = 0; i < n; i++) junk.push({i: i}); return junk.length }
+function build(){ var nodes = [head]; for (var i = 1; i <= %d; i++) nodes.push({name: 'n' + i});
+  var order = [%s]; for (var j = 0; j < order.length; j++) { var i = order[j]; maps[i %% maps.length].set(nodes[i], %s); ws.add(nodes[i + 1]) } }
+function walk(){ var seen = [], cur = head, i = 0; while (cur !== undefined) { seen.push(cur.name + (i > 0 && !ws.has(cur) ? '!' : '')); var v = maps[i %% maps.length].get(cur); cur = v === undefined ? undefined : %s; i++ } return seen.join('>') }
+build(); print(walk()); churn(8); print(walk()); churn(40); print(walk()); build(); churn(3); print(walk());
+""" % (", ".join(["new WeakMap()"] * maps), depth, ", ".join(map(str, order)), wrap % "nodes[i + 1]", unwrap % "v")
+                    out.append((name, src, ["s:" + chain] * 4))
+    return out
+
+
 def spec(tier):
     cfgs = GC_CONFIGS if tier == "thorough" else [c for c in GC_CONFIGS if c[0] in ("default", "none", "gc:1", "gc:3", "gc:50")]
     s = cfgdiff.Spec("C10", cfgs, "none", "c10", "no forced collection", {"quick": 250, "thorough": 1200})
     s.quick_grid, s.quick_corpus = 300, 150
     s.extra_items = churn_programs()
+    wc = weak_chain_programs()
+    s.raw_items = wc if tier == "thorough" else [w for k, w in enumerate(wc) if k % 3 == 0 or "/d3/210/" in w[0] or "/d4/3210/" in w[0]]
     return s
 
 
